@@ -123,6 +123,16 @@ class RTMod(symstr.SymStr):
                 return [(OK, hirai.mkint(len(a0[2])), st)]
         if a0 is not None and a0[0] == "abs" and a0[1] == "siter" and callee == "core::iter::traits::iterator::Iterator::enumerate":
             return [(OK, ("abs", "siter", tuple(("tuple", (hirai.mkint(i), x)) for i, x in enumerate(a0[2][a0[3]:])), 0), st)]
+        if a0 is not None and a0[0] == "abs" and a0[1] == "siter" and callee == "core::iter::traits::iterator::Iterator::unzip":
+            items = [I.deref_val(st, x) for x in a0[2][a0[3]:]]
+            if all(x[0] == "tuple" and len(x[1]) == 2 for x in items):
+                return [(OK, ("tuple", (("abs", "svec", tuple(x[1][0] for x in items)), ("abs", "svec", tuple(x[1][1] for x in items)))), st)]
+        if a0 is not None and a0[0] == "abs" and a0[1] == "siter" and callee == "core::iter::traits::iterator::Iterator::zip" and len(args) > 1:
+            b = I.deref_val(st, args[1])
+            if b[0] == "abs" and b[1] in ("siter", "svec"):
+                bi = list(b[2][b[3]:]) if b[1] == "siter" else list(b[2])
+                ai = list(a0[2][a0[3]:])
+                return [(OK, ("abs", "siter", tuple(("tuple", (x, y)) for x, y in zip(ai, bi)), 0), st)]
         if a0 is not None and a0[0] == "abs" and a0[1] == "siter" and callee == "core::iter::traits::iterator::Iterator::map":
             items = a0[2][a0[3]:]
 
